@@ -264,7 +264,11 @@ func C18(t *testing.T, ch *choice.Source, opt harness.Options, env *Env) harness
 		mode = "timing"
 	}
 	tag += "/" + mode + "/" + multiName
-	staleSeen := (one.stale != nil && one.stale.StaleHits > 0) || (many.stale != nil && many.stale.StaleHits > 0)
+	staleCause, _ := many.stale.knownCause()
+	if c1, _ := one.stale.knownCause(); staleCause == "" {
+		staleCause = c1
+	}
+	staleSeen := staleCause != ""
 	switch {
 	case one.problem != "" && many.problem != "":
 		res.Inconclusive = "workload-fails-on-one-gpu-too"
@@ -328,7 +332,7 @@ func C18(t *testing.T, ch *choice.Source, opt harness.Options, env *Env) harness
 			probes["buffer_shapes_differ"] = 1
 		}
 		if res.Rule == "R1" && staleSeen {
-			res.Signature = "buffer-bytes-differ/" + staleL1Cause
+			res.Signature = "buffer-bytes-differ/" + staleCause
 		}
 	}
 	if opt.Verbose || res.Failed() {
